@@ -108,7 +108,7 @@ func run(r *core.Run) {
 			col = append(append(col, id), []byte("xytail-of-the-column")...)
 			r.Begin(fmt.Sprintf("corpus-%d-%x", w.length, id), true, "stream:corpus")
 			line := fmt.Sprintf("C11.read block %s 2 left %s %s", core.Hex([]byte("xxxx")), none.Tokens(), core.Hex(col))
-			got := r.ImplIsolated(line, 5*time.Second)
+			got := r.ImplIsolated(line, 90*time.Second) // generous: the child starts slowly on a loaded machine; a real endless loop still ends here
 			r.Diff(line, got)
 			r.Check(got != "timeout" && got != "oom", "mask-scan-length", fmt.Sprintf("masked-column scan does not terminate on a false container header with length %d", w.length))
 			r.Check(got != core.Panic, "mask-scan-length", fmt.Sprintf("masked-column scan panics on a false container header with length %d", w.length))
